@@ -120,6 +120,7 @@ type EnvOpts struct {
 	Tracer    bool           // attach the recorder as debug tracer
 	Steps     bool           // record per-instruction events
 	ExtraEips []int
+	ShareEips bool // hand ExtraEips to vm.Config as given (one slice shared by several EVMs) instead of a private copy
 	Origin    common.Address
 	GasPrice  *big.Int
 	NoHost    bool // do not put a Host into the context
@@ -184,6 +185,9 @@ func NewEnv(o EnvOpts) *Env {
 		bc.Difficulty = big.NewInt(0)
 	}
 	cfg := vm.Config{ExtraEips: append([]int(nil), o.ExtraEips...)}
+	if o.ShareEips {
+		cfg.ExtraEips = o.ExtraEips
+	}
 	if o.Tracer {
 		cfg.Tracer = e.Rec
 	}
